@@ -31,6 +31,10 @@ Bijection ==
 TriCount == phase = "n" /\ n <= 6 => Cardinality(TriSet(n)) = 4 ^ n
 
 RelClosed == phase = "d" => \A c \in 0..3 : Rel(d, n, o, c) \in Configs16
+\* NOTE (checked with TLC, kept as a remark): the lattice triangle of a child is in general NOT one of the four
+\* sub-triangles of its parent's triangle -- the PATTERN shifts move children into neighbouring positions -- so
+\* bijectivity at depth n+1 does not follow from depth n by simple nesting; it is checked depth by depth.
+
 RelSetAt(m) == {Rel(x, m, oo, c) : x \in [0..m - 1 -> 0..3], oo \in Orientations, c \in 0..3}
 RelSaturated == phase = "start" => RelSetAt(2) = Configs16 /\ RelSetAt(3) = Configs16 /\ Cardinality(Configs16) = 16
 \* the children of a tile are a function of the tile type alone: four placements per type
